@@ -72,6 +72,9 @@ def is_input_key(key):
 
 
 RESULT_SCALARS = ("converged", "OPF_converged")
+# non-table items that are user input (everything else that is not a DataFrame -- net.ppci written
+# by calc_sc, version stamps, converged flags -- is calculation state, not input)
+USER_ITEMS = ("std_types", "user_pf_options", "name", "f_hz", "sn_mva")
 
 
 def snapshot(net, with_results=False):
@@ -89,9 +92,7 @@ def snapshot(net, with_results=False):
                 if val[c].dtype == object and len(val):
                     snap["tables"][key][c] = [copy.deepcopy(x) if not isinstance(x, (str, float, int, type(None)))
                                               else x for x in val[c].values]
-        elif key in RESULT_SCALARS:
-            continue
-        else:
+        elif key in USER_ITEMS:
             snap["other"][key] = copy.deepcopy(val)
     return snap
 
@@ -205,23 +206,18 @@ SCRUB_KEYS = ("_ppc", "_ppc0", "_ppc1", "_ppc2", "_ppc_opf", "_is_elements", "_i
 
 
 def scrubbed_copy(net):
-    import pandapower as pp
-    from pandapower.results import reset_results
+    """deepcopy(net) minus everything the properties call history: result tables reset to the
+    empty-network form, all `_`-prefixed internal state (ppc, lookups, options, is_elements, ...)
+    reset to what create_empty_network() gives, converged flags cleared."""
     new = copy.deepcopy(net)
-    empty = _empty_internal()
-    for k in list(new.keys()):
-        if k.startswith("_"):
-            if k in empty:
-                new[k] = copy.deepcopy(empty[k])
-            else:
-                del new[k]
-    for k in list(new.keys()):
-        if k.startswith("res_") and isinstance(new[k], pd.DataFrame):
-            new[k] = new[k].iloc[0:0].copy() if _is_std_res(k) else new[k].iloc[0:0].copy()
-    # restore the result tables an empty network has (dtypes), drop the extra result columns
     tmpl = _empty_net()
     for k in list(new.keys()):
-        if k.startswith("res_"):
+        if k.startswith("_"):
+            if k in tmpl:
+                new[k] = copy.deepcopy(tmpl[k])
+            else:
+                del new[k]
+        elif k.startswith("res_") and isinstance(new[k], pd.DataFrame):
             if k in tmpl:
                 new[k] = tmpl[k].copy(deep=True)
             else:
@@ -240,15 +236,6 @@ def _empty_net():
         import pandapower as pp
         _EMPTY = pp.create_empty_network()
     return _EMPTY
-
-
-def _empty_internal():
-    e = _empty_net()
-    return {k: e[k] for k in e.keys() if k.startswith("_")}
-
-
-def _is_std_res(k):
-    return k in _empty_net()
 
 
 # ---------------------------------------------------------------------------------------------
